@@ -1,5 +1,6 @@
 /- driver family `mesh`: open edges and connected subsets of a face list -/
 import MagpyVerif.Model.Mesh
+import MagpyVerif.Model.MeshPipeline
 import Driver.Parse
 
 namespace Driver.MeshFam
@@ -23,6 +24,11 @@ def run : P String := do
       let ss := subsets (fs.length + 1) fs
       let norm := ss.map fun s => (s.toArray.qsort (· < ·)).toList
       pure ("subsets " ++ " | ".intercalate (norm.map fun s => " ".intercalate (s.map toString)))
+  | "facesubsets" => do
+      -- what get_disconnected_faces_subsets returns: the FACE subsets, in order
+      let fs ← faces
+      let ss := facesSubsets fs
+      pure ("facesubsets " ++ " | ".intercalate (ss.map fun s => " ".intercalate (s.map fun f => s!"{f.1},{f.2.1},{f.2.2}")))
   | "inwards" => do
       -- faces, then the seed verdicts as pairs (number of remaining faces at the call, verdict 0/1)
       let fs ← faces
